@@ -10,7 +10,7 @@ import (
 	"pgregory.net/rapid"
 )
 
-var boundaryStrings = []string{"", "a", "ab", "0", "12", "-5", "abc", "true", "7"}
+var boundaryStrings = []string{"", "a", "ab", "0", "12", "-5", "abc", "true", "7", "2147483648", "-99999999999", "\u00e9t\u00e9"}
 var boundaryNumbers = []int{0, 1, 2, 7, -3, 12}
 
 type exprGen struct {
@@ -191,6 +191,15 @@ func declareVars(eg *exprGen) []Stmt {
 		name := typedVarName(tp, 1)
 		out = append(out, Stmt{K: "set", Name: name, E: eg.lit(tp)})
 		eg.vars[tp] = append(eg.vars[tp], name)
+	}
+	if rapid.IntRange(0, 2).Draw(eg.t, "casevariants") == 0 {
+		// identifiers are case-sensitive (only keywords are folded): S1, N1, B1 are
+		// other variables than s1, n1, b1, and here they have other types
+		for i, tp := range []PType{TNumber, TBool, TString} {
+			name := strings.ToUpper(typedVarName(PType(i), 1))
+			out = append(out, Stmt{K: "set", Name: name, E: eg.lit(tp)})
+			eg.vars[tp] = append(eg.vars[tp], name)
+		}
 	}
 	return out
 }
